@@ -121,6 +121,9 @@ func (s *Session) Reset() {
 	if s.delivery != nil {
 		s.abort(s.msgCtx)
 	}
+	// With deferred MAIL handling there may be no delivery but the error of
+	// a failed start, it belongs to the transaction that ends here.
+	s.deliveryErr = nil
 	s.endp.Log.DebugMsg("reset")
 }
 
@@ -320,6 +323,9 @@ func (s *Session) Mail(from string, opts *smtp.MailOptions) error {
 			return s.endp.wrapErr(msgID, !opts.UTF8, "MAIL", err)
 		}
 	}
+
+	// A new transaction starts, forget the deferred error of the previous one.
+	s.deliveryErr = nil
 
 	if s.endp.deferServerReject {
 		// Keep the MAIL FROM argument for deferred startDelivery.
